@@ -61,12 +61,28 @@ fn main() {
     }
     match args[1].as_str() {
         "exec" if args.len() >= 5 => {
+            // exec <component> <cases> <obs> [timeout_ms] [first case] : observations are appended case by case and
+            // <obs>.done holds the number of finished cases (the orchestrator resumes after an abrupt process exit)
             let (exec, _) = component(&args[2]);
             let cases = read_ndjson(&args[3]);
             let to = args.get(5).and_then(|s| s.parse().ok()).unwrap_or(5000u64);
-            let obs = run_cases(cases, Duration::from_millis(to), exec);
-            write_ndjson(&args[4], &obs);
-            println!("exec {} -> {} observations", args[2], obs.len());
+            let first: usize = args.get(6).and_then(|s| s.parse().ok()).unwrap_or(0);
+            use std::io::Write;
+            let mut f = std::fs::OpenOptions::new().create(true).append(first > 0).write(true).truncate(first == 0)
+                .open(&args[4]).expect("cannot open observation file");
+            let done_path = format!("{}.done", args[4]);
+            std::fs::write(&done_path, first.to_string()).expect("cannot write progress file");
+            let mut nobs = 0usize;
+            run_cases_from(cases, first, Duration::from_millis(to), exec, &mut |i, recs| {
+                for r in &recs {
+                    let r = strip_nulls(r.clone());
+                    writeln!(f, "{}", serde_json::to_string(&r).unwrap()).expect("write failed");
+                }
+                f.flush().expect("flush failed");
+                std::fs::write(&done_path, (i + 1).to_string()).expect("cannot write progress file");
+                nobs += recs.len();
+            });
+            println!("exec {} -> {} observations", args[2], nobs);
             // never unwind/join abandoned workers
             std::process::exit(0);
         }
